@@ -56,6 +56,12 @@ func (s *Server[StateT]) Serve(ln net.Listener) error {
 }
 
 func isTemporaryAcceptError(err error) bool {
+	// what network stack itself calls temporary (covers errors of other platforms, which have numbers of their own)
+	var netErr net.Error
+	if errors.As(err, &netErr) && netErr.Temporary() { //nolint:staticcheck // same test as in net/http
+		return true
+	}
+
 	for _, errno := range []syscall.Errno{syscall.EMFILE, syscall.ENFILE, syscall.ENOBUFS, syscall.ENOMEM, syscall.ECONNABORTED} {
 		if errors.Is(err, errno) {
 			return true
